@@ -1,5 +1,7 @@
 package cache
 
+import "sync"
+
 // C09: cache.Cache under concurrent use. Threads are interpreted by the engine
 // (vPar): every lock-granularity schedule is explored, every heap cell and map
 // access is checked for happens-before ordering (data races), and each call's
@@ -147,7 +149,12 @@ func vPickCall(thread, slot, kinds int, keys []int) *vCall {
 func VH_cache_Par() {
 	limit := vCase("limit")
 	var log []vEnt
-	c := New(int64(limit), LRU[int, int]().OnEvict(func(k, v int) { log = append(log, vEnt{k, v}) }))
+	var logMu sync.Mutex // the callback is the caller's code: it does its own locking
+	c := New(int64(limit), LRU[int, int]().OnEvict(func(k, v int) {
+		logMu.Lock()
+		log = append(log, vEnt{k, v})
+		logMu.Unlock()
+	}))
 	ref := &vRefLRU{limit: limit}
 	// a small shared key space of symbolic keys (they may or may not coincide)
 	keys := make([]int, vCase("keys"))
